@@ -873,7 +873,8 @@ func compileRegAssignment(context *funcContext, names []string, exprs []ast.Expr
 
 func compileLocalAssignStmt(context *funcContext, stmt *ast.LocalAssignStmt) { // {{{
 	reg := context.RegTop()
-	if len(stmt.Names) == 1 && len(stmt.Exprs) == 1 {
+	if stmt.LocalFunction && len(stmt.Names) == 1 && len(stmt.Exprs) == 1 {
+		// local function f: f is visible in its own body
 		if _, ok := stmt.Exprs[0].(*ast.FunctionExpr); ok {
 			context.RegisterLocalVar(stmt.Names[0])
 			compileRegAssignment(context, stmt.Names, stmt.Exprs, reg, len(stmt.Names), sline(stmt))
